@@ -71,6 +71,17 @@ def site(c):
     return "%s" % c.sp
 
 
+def removers(facts):
+    """Store::remove and every other function of xs::store that fills a batch with removals (a private `remove_frame(&Frame)`
+    that Store::remove and the GC share): the functions whose call takes a frame out of the store."""
+    out = [REMOVE]
+    for b in facts.all_bodies():
+        if b.def_.startswith("xs::store::") and "::tests::" not in b.def_ and b.def_ != REMOVE and b.kind in ("Fn", "AssocFn"):
+            if any(c.fn == BATCH_REMOVE and c.bb in b.live_blocks() for c in b.calls()):
+                out.append(b.def_)
+    return tuple(out)
+
+
 def callers_of(facts, def_):
     """[(body, callsite)] of all live calls to a crate-local function."""
     out = []
